@@ -34,9 +34,12 @@ Theorem C05_crash_prefix : forall W ops k st, exists n j,
 Proof. exact crash_prefix. Qed.
 Print Assumptions C05_crash_prefix.
 
-(* ... which for store / revert / L1 head / snapshot / restart (single-batch operations) means: the
-   disk after a prefix of COMPLETE operations — all or nothing. *)
+(* ... which for store / revert / L1 head / snapshot (single-batch operations) means: the disk after a
+   prefix of COMPLETE operations — all or nothing. (A restart is not single-commit: the initialisation
+   of the running filter may re-write persisted windows with direct Puts; a crash between them leaves a
+   prefix of those writes, which C05_crash covers.) *)
 Theorem C05_crash_atomic : forall W ops k st, (forall e, ~ In (Prune e) ops) ->
+  (forall o, In o ops -> is_restart o = false) ->
   exists n, fst (exec_crash W ops k st) = fst (run W (firstn n ops) st).
 Proof. exact crash_atomic. Qed.
 Print Assumptions C05_crash_atomic.
@@ -58,7 +61,7 @@ Print Assumptions C05_crash_restart_free.
 
 (* A failed commit leaves the disk unchanged (single-batch operations) / exactly at the batches
    committed before it (prune). *)
-Theorem C05_fault_disk : forall W o d m, (forall e, o <> Prune e) ->
+Theorem C05_fault_disk : forall W o d m, (forall e, o <> Prune e) -> is_restart o = false ->
   fst (plan W o d m) <> [] -> fst (exec_fault W [o] 0 (d, m)) = d.
 Proof. exact fault_disk_single. Qed.
 Print Assumptions C05_fault_disk.
@@ -136,6 +139,19 @@ Example C05_crash_index_refuted :
   let d := fst (exec_crash 4 ops 6 st0) in
   ops_ok 4 ops st0 = true /\ consistent 4 d = true /\ recover_ready 4 d = true /\
   index_covers 4 d = false.
+Proof. vm_compute. repeat split; reflexivity. Qed.
+
+(* a restart whose filter initialisation re-writes a persisted window with a direct Put (snapshot at
+   height 2, block 3 ends the window, ungraceful restart: the fill from the snapshot rolls over): the
+   write is one more commit of the Restart; if it FAILS, the initialisation error is sticky: the same
+   process can neither store the next block nor answer event queries, a fresh process can *)
+Example C05_fault_init_write_refuted :
+  let ops := firstn 3 chain5 ++ [Snapshot; Store (blk 3 103 102 [3]); Restart false] in
+  batch_counts 4 ops st0 = [1; 1; 1; 1; 1; 1]%nat /\
+  let r := exec_fault 4 ops 5 st0 in
+  d_height (fst r) = Some 3 /\ consistent 4 (fst r) = true /\ rf_err (snd r) = true /\
+  stores 4 (fst r) (snd r) (blk 4 104 103 [1]) = false /\ mem_covers 4 (fst r) (snd r) = false /\
+  stores 4 (fst r) (reinit 4 (fst r)) (blk 4 104 103 [1]) = true.
 Proof. vm_compute. repeat split; reflexivity. Qed.
 
 (* the hypotheses of C05_crash are satisfiable by a non-trivial history (three windows, reverts across
